@@ -27,7 +27,16 @@ RULE = (
     "[:, cols]; values, shape and dtype exact; reader.shape/n_samples/n_channels/dtype/duration/"
     "part_bounds. Non-trivial layout: >=2 files, or a header offset, or cbin backend; the class "
     "histogram counts expressions that cross a file boundary / use negative bounds / combine an "
-    "index array with a column selector.")
+    "index array with a column selector."
+    " Later additions: negative and single-channel column selectors (lists and the caller's own i"
+    'nt32/int64 arrays, compared with a pristine copy afterwards); the same file names re-written'
+    ' with another recording; relative paths followed by a change of directory into a folder with'
+    ' equally named files; Fortran-ordered .npy; one-element path lists; the n_channels_dat/dtype'
+    '/offset keywords of a params file on .npy / in-memory data; parts with different raw extensi'
+    'ons; the same file name in several folders; float recordings with NaN/inf; an out-of-range r'
+    'equest before a valid one; results held by the caller re-compared after later reads; hand-ma'
+    'de requests beyond 2**16/2**18 (thorough 2**20) rows and a sparse file of 2**31+40 (thorough'
+    ' 2**32+40) samples.')
 ASSUMPTIONS = ['mtscomp as codec (integer-valued samples are lossless)']
 
 OFFSETS = [0, 1, 7, 16]
